@@ -6,4 +6,12 @@ ENGINE = 'E3'
 
 
 def run(ctx):
-    return collect('C02', ctx, ('c02', 'c01b'), 'wiring')
+    res = collect('C02', ctx, ('c02', 'c01b'), 'wiring')
+    from vlib.e1 import Ob, run_obligations
+    tmo = 900 if ctx.thorough else 100
+    obs = [Ob('two_routes', 'ob_two_routes', '', packed=[('first_kind', 2), ('bind_name_i', 3), ('res_level', 2), ('method_i', 2)], timeout=tmo, confirm='confirm_two_routes',
+              desc='two routes match the path; the first is not taken (method not admitted / non-breaking 404) and its URL binding is named like a resource, a defaulted '
+                   'parameter or the binding of the second: the second route\'s endpoint gets its own binding, the very resource object and its own default')]
+    res.merge(run_obligations('C02', 'harness.c02', obs, ctx.tier))
+    res.functions_encoded += ['Application.dispatch (per-route parameter building)', 'BoundRoute.execute', 'sinter.inject']
+    return res
